@@ -416,8 +416,14 @@ class Env:
             out.append(("valid1", self.valid_kwargs(c, 1)))
             if any(f.get("opt") or (f["kind"].get("arr") and "ref" in f["kind"]) for f in fields):
                 out.append(("required-only", self.required_kwargs(c)))
-        except Exception as e:      # a referenced class cannot be instantiated
-            return [("novalid:" + err_name(e), None)]
+        except Exception as e:      # a referenced class cannot be instantiated: the minimal instance is still probed
+            out = [("novalid:" + err_name(e), None)]
+            try:
+                out.append(("required-only", self.required_kwargs(c)))
+            except Exception as e2:
+                out.append(("norequired:" + err_name(e2), None))
+            out.append(("empty", {}))
+            return out
         for f in fields:
             n = f["name"]
             out.append(("missing:" + n, {k: v for k, v in base.items() if k != n}))
@@ -444,10 +450,13 @@ class Env:
                 cls(**({} if op.get("probe") == "empty" else self.required_kwargs(c)
                        if op.get("probe") == "required" else self.valid_kwargs(c, 1 if op.get("probe") == "valid1" else 0)))
             elif kind == "serialize":
-                doc = serialize(self.op_instance(c, op), camel_case_convert=bool(op.get("camel")))
+                x = self.op_instance(c, op)
+                doc = serialize(x, camel_case_convert=bool(op.get("camel")))
                 from typedpy.structures import TypedPyDefaults
                 if isinstance(doc, dict) and not TypedPyDefaults.compact_serialization_default:
                     res["keys"] = sorted(doc)
+                if self.is_fast(c):
+                    res["doc"] = self.doc_shape(c, x, x.serialize())
             elif kind == "deserialize":
                 camel = bool(op.get("camel"))
                 Deserializer(cls, camel_case_convert=camel).deserialize(
@@ -471,6 +480,34 @@ class Env:
         except Exception as e:
             res["err"] = err_name(e)
         return res
+
+    def doc_shape(self, c, x, doc):
+        """shape of the document of an instance of class c: keys and nesting along the class-reference fields,
+        every other value erased"""
+        if not isinstance(doc, dict):
+            return None if doc is None else "v"
+        nested = []
+        for f in self.flat_fields(c):
+            k = f["kind"]
+            if "ref" in k:
+                v = getattr(x, f["name"], None)
+                if v is None:
+                    continue
+                cls = self.classes[k["ref"]]
+                if k.get("arr"):
+                    nested.append((k["ref"], list(v), [cls.serialize(i) for i in v]))
+                else:
+                    nested.append((k["ref"], v, cls.serialize(v)))
+        out = {}
+        for key, val in doc.items():
+            hit = next((n for n in nested if val is not None and n[2] == val), None)
+            if hit is None:
+                out[key] = None if val is None else "v"
+            elif isinstance(hit[1], list):
+                out[key] = [self.doc_shape(hit[0], i, d) for i, d in zip(hit[1], val)]
+            else:
+                out[key] = self.doc_shape(hit[0], hit[1], val)
+        return out
 
     def set_default(self, flag, value):
         from typedpy import Structure
@@ -497,6 +534,7 @@ class Env:
                 steps.append({"done": True})
             else:
                 steps.append(self.use(op))
+            steps[-1]["sers"] = sorted(c for c, k in self.classes.items() if "serialize" in k.__dict__)
         return steps
 
     # ---------------------------------------------------------------- state snapshot / fingerprint
